@@ -123,6 +123,11 @@ def judge(ctx, kind, graph_seed, knobs, audio_mode="none"):
 
 
 def run(ctx):
+    from rv.props import concurrent_jobs
+
+    # (before the adapter invariant is installed: its monitor state is not meant to be shared between threads)
+    concurrent_jobs.run_some(ctx, "C02", quick=3, thorough=12)        # the same calls from a thread pool (rv/core/threads.py)
+    ctx.must_monitors.append("concurrent_calls")
     AC.install()
     install_invariant()
     AC.HOOKS[:] = [_hook]
